@@ -72,10 +72,15 @@ pub fn gen_spec(ch: &mut Ch) -> WorldSpec {
                     }
                     1 | 2 => {
                         t.method = if ch.chance(1, 2, "t.post") { 2 } else { 3 };
-                        let szx = ch.below(7, "t.up.szx") as u8;
+                        // now and then a heavy upload: a body near the upper
+                        // bound in large blocks, every block delivered three
+                        // times, after an abandoned prefix of six blocks (the
+                        // most data an in-premise client parks on one key)
+                        let heavy = ch.chance(1, 12, "t.up.heavy");
+                        let szx = if heavy { 5 + ch.below(2, "t.up.szx.heavy") as u8 } else { ch.below(7, "t.up.szx") as u8 };
                         let size = 16usize << szx;
                         // lengths around block multiples
-                        let len = match ch.weighted(&[50, 10, 40], "t.up.lenmode") {
+                        let len = if heavy { 4000 + ch.below(1001, "t.up.len.heavy") as usize } else { match ch.weighted(&[50, 10, 40], "t.up.lenmode") {
                             0 => {
                                 let k = ch.below(7, "t.up.k") as usize;
                                 let d = ch.below(3, "t.up.d") as i64 - 1;
@@ -83,11 +88,15 @@ pub fn gen_spec(ch: &mut Ch) -> WorldSpec {
                             }
                             1 => 0,
                             _ => ch.below(5001, "t.up.len") as usize,
-                        }
+                        } }
                         .min(5000);
                         let nblocks = (len.max(1) + size - 1) / size;
                         let mut dups = vec![0u8; nblocks];
-                        if ch.chance(2, 5, "t.up.dups") {
+                        if heavy {
+                            for d in dups.iter_mut() {
+                                *d = 2;
+                            }
+                        } else if ch.chance(2, 5, "t.up.dups") {
                             for d in dups.iter_mut() {
                                 if ch.chance(1, 4, "t.up.dup") {
                                     *d = 1 + ch.below(2, "t.up.dupn") as u8;
@@ -95,9 +104,9 @@ pub fn gen_spec(ch: &mut Ch) -> WorldSpec {
                             }
                         }
                         // an earlier upload to the same resource, abandoned midway
-                        if ch.chance(3, 10, "t.up.abandoned-before") && transfers.len() + 1 < nt + 1 {
-                            let plen = 1 + ch.below(7, "t.ab.blocks") as usize;
-                            let pszx = if ch.chance(1, 3, "t.ab.otherszx") { ch.below(7, "t.ab.szx") as u8 } else { szx };
+                        if (heavy || ch.chance(3, 10, "t.up.abandoned-before")) && transfers.len() + 1 < nt + 1 {
+                            let plen = if heavy { 6 } else { 1 + ch.below(7, "t.ab.blocks") as usize };
+                            let pszx = if !heavy && ch.chance(1, 3, "t.ab.otherszx") { ch.below(7, "t.ab.szx") as u8 } else { szx };
                             let psize = 16usize << pszx;
                             let mut a = t.clone();
                             a.kind = TKind::Upload { body_id: ch.below(1 << 40, "t.ab.body"), len: (plen + 1) * psize, szx: pszx, dups: vec![], abandon_after: Some(plen as u32), adapt: false };
